@@ -263,7 +263,7 @@ pub fn run(ctx: &Ctx, rep: &mut Report) {
         } else if full {
             (0, 1)
         } else if ctx.quick() {
-            (1 << 24, 0)
+            ((1 << 24) >> crate::rt::scale_shift(), 0)
         } else {
             (0, 16)
         };
@@ -481,13 +481,35 @@ fn class_checks(ctx: &Ctx, rep: &mut Report, only: Option<&str>) {
                             }
                         }
                         "powf" => {
-                            match r.below(8) {
+                            match r.below(10) {
                                 0 => a = NAR,
                                 1 => b = NAR,
+                                8 => {
+                                    // a NaR operand next to the shortcut values y = 0 and x = 1
+                                    a = NAR;
+                                    b = if r.chance(1, 2) { 0 } else { enc(r.range(-2, 2) as f64) as u32 };
+                                }
+                                9 => {
+                                    b = NAR;
+                                    a = if r.chance(1, 2) { 0x4000_0000 } else { (0x4000_0000i64 + r.range(-2, 2)) as u32 };
+                                }
                                 2 => {
                                     // integer exponents next to the parity threshold
-                                    let k = r.range(-(1 << 24), 1 << 24);
+                                    // (uniform, or a power of two +- 0..2: the largest odd integer
+                                    // a P32E2 holds is 2^23 - 1)
+                                    let k = if r.chance(1, 2) {
+                                        r.range(-(1 << 24), 1 << 24)
+                                    } else {
+                                        let v = (1i64 << r.range(0, 31)) + r.range(-2, 2);
+                                        if r.chance(1, 2) { -v } else { v }
+                                    };
                                     b = enc(k as f64) as u32;
+                                    if r.chance(1, 2) {
+                                        a |= 0x8000_0000; // a negative base makes the parity visible
+                                        if a == NAR {
+                                            a = 0xc000_0000;
+                                        }
+                                    }
                                 }
                                 3 => b = enc(r.range(-40, 40) as f64) as u32,
                                 4 => a = 0,
@@ -497,8 +519,9 @@ fn class_checks(ctx: &Ctx, rep: &mut Report, only: Option<&str>) {
                             let yint = y == y.trunc();
                             let yodd = yint && y.abs() < 9.0e15 && ((y.abs() as u64) & 1) == 1;
                             if a == NAR || b == NAR {
-                                // pow(NaR, 0) = 1 and pow(1, NaR) = 1 follow the IEEE convention: not judged
-                                if (a == NAR && b == 0) || (b == NAR && a == 0x4000_0000) { None } else { Some(true) }
+                                // the statement is explicit: a NaR input gives NaR (also for the
+                                // IEEE-style shortcuts pow(x, 0) = 1 and pow(1, y) = 1)
+                                Some(true)
                             } else if b == 0 || a == 0x4000_0000 {
                                 want_neg = Some(false);
                                 Some(false)
